@@ -162,6 +162,10 @@ def class_hierarchy():
 
 
 _ALIASES = {'IOError': 'OSError', 'EnvironmentError': 'OSError'}
+# exceptions that live outside builtins and outside asyncssh (name -> bases)
+_EXTRA_BASES = {'CancelledError': ['BaseException'], 'InvalidStateError': ['Exception'],
+                'IncompleteReadError': ['EOFError'], 'LimitOverrunError': ['Exception'],
+                'InvalidTag': ['Exception'], 'InvalidSignature': ['Exception']}
 
 
 def is_subclass(name, base):
@@ -182,6 +186,8 @@ def is_subclass(name, base):
             return True
         if n in h:
             stack.extend(h[n])
+        elif n in _EXTRA_BASES:
+            stack.extend(_EXTRA_BASES[n])
         else:
             b = getattr(builtins, n, None)
             bb = getattr(builtins, base, None)
